@@ -168,21 +168,55 @@ class Ctx:
     # ---- path helpers ----------------------------------------------------------------------------
     def check_safety(self, paths, requires, prefix, replay=None, kinds=("div", "shape", "mask", "index")):
         """safety obligations collected by the evaluator on all paths"""
-        seen = set()
-        k = 0
+        groups = {}
         for p in paths:
             for kind, ln, conds, f in p.safety:
                 if kind not in kinds:
                     continue
-                key = (kind, ln, str(f), tuple(str(c) for c in conds))
+                key = (kind, ln, str(f))
+                groups.setdefault(key, []).append((p, conds, f))
+        k = 0
+        for (kind, ln, _), items in groups.items():
+            k += 1
+            # one obligation per distinct safety formula: it must hold under the disjunction of
+            # the path conditions under which it is reached
+            f = items[0][2]
+            g = f if not isinstance(f, bool) else z3.BoolVal(f)
+            seen, disj, facts = set(), [], []
+            for p, conds, _f in items:
+                cs = [B(c) for c in conds]
+                key = tuple(c.get_id() for c in cs)
                 if key in seen:
                     continue
                 seen.add(key)
-                k += 1
-                g = f if not isinstance(f, bool) else z3.BoolVal(f)
-                self.ob("%s/safety-%s@L%s#%d" % (prefix, kind, ln, k), "safety-" + kind,
-                        list(requires) + [B(c) for c in conds] + list(p.facts), g, lineno=ln,
-                        replay=replay)
+                disj.append(z3.And(*cs) if cs else z3.BoolVal(True))
+                for ff in p.facts:
+                    facts.append(ff)
+            reach = z3.Or(*disj) if len(disj) > 1 else disj[0]
+            fseen, ufacts = set(), []
+            for ff in facts:
+                if ff.get_id() not in fseen:
+                    fseen.add(ff.get_id())
+                    ufacts.append(ff)
+            # staged assumption sets (all sound weakenings of the full reachability condition):
+            # requires only; requires + the innermost guard of every reaching path; the full
+            # disjunction of the reaching path conditions
+            inner = []
+            iseen = set()
+            for p, conds, _f in items:
+                c = B(conds[-1]) if conds else z3.BoolVal(True)
+                if c.get_id() not in iseen:
+                    iseen.add(c.get_id())
+                    inner.append(c)
+            local = z3.Or(*inner) if len(inner) > 1 else inner[0]
+            chosen = list(requires) + [reach] + ufacts
+            for cand in (list(requires) + ufacts, list(requires) + [local] + ufacts):
+                r0 = solve.prove(cand, g, timeout_ms=3000, use_cvc5=False)
+                if r0["verdict"] == solve.Verdict.PROVED:
+                    chosen = cand
+                    break
+            self.ob("%s/safety-%s@L%s#%d" % (prefix, kind, ln, k), "safety-" + kind,
+                    chosen, g, lineno=ln, replay=replay)
 
 
 def _model_str(m, limit=60):
